@@ -188,6 +188,7 @@ def _fast_pairs(pairs):
 def chunk_neighbours(args):
     """Every colour of a slab against its +1 neighbours along each axis (covers all unit steps)."""
     r, gs, bs = args
+    gs, bs = list(gs), list(bs)
 
     def gen():
         for g in gs:
@@ -206,7 +207,8 @@ def chunk_neighbours(args):
 
 def chunk_rows(args):
     a, others = args
-    return _fast_pairs((a, b) for b in others)
+    a = tuple(a)
+    return _fast_pairs((a, tuple(b)) for b in others)
 
 
 def wrap_sets(phase):
@@ -234,7 +236,7 @@ def run(ctx):
         "near-neutral and hue-wrap-straddling pairs, each in both argument orders. non-trivial = pairs of distinct colours."
     )
     n = 0
-    for cnt, viol in ctx.pmap(chunk_lab, range(256)):
+    for cnt, viol in ctx.pmap_chunks("mc.props.c11", "chunk_lab", list(range(256))):
         n += cnt
         ctx.add_violations(viol)
     ctx.sub("lab_all_2^24", states=n, transitions=n, evaluations=n, traces=n, distinct_nontrivial=n, exhaustive=True)
@@ -261,7 +263,7 @@ def run(ctx):
         jobs = [(r, full[i:i + 64], full) for r in range(256) for i in range(0, 256, 64)]
         name = "neighbours_all_2^24"
     m = 0
-    for cnt, viol in ctx.pmap(chunk_neighbours, jobs):
+    for cnt, viol in ctx.pmap_chunks("mc.props.c11", "chunk_neighbours", jobs):
         m += cnt
         ctx.add_violations(viol)
     ctx.sub(name, states=m, transitions=2 * m, evaluations=m, traces=m, distinct_nontrivial=m * 3 // 4, exhaustive=True)
@@ -279,7 +281,7 @@ def run(ctx):
     lo, hi = lo[:cap], hi[:cap]
     jobs += [(a, hi) for a in lo]
     m = 0
-    for cnt, viol in ctx.pmap(chunk_rows, jobs, chunksize=4):
+    for cnt, viol in ctx.pmap_chunks("mc.props.c11", "chunk_rows", jobs, chunksize=4):
         m += cnt
         ctx.add_violations(viol)
     ctx.sub("cube2_nearneutral_huewrap", states=m, transitions=2 * m, evaluations=m, traces=m,
